@@ -142,7 +142,9 @@ var plainPool = []string{"ID", "Id", "id", "Name", "name", "NAME", "User.Name", 
 var rePool = []string{`/^A/`, `/^a/`, `/\S+e/`, `/\s/`, `/[A-Z]+/`, `/[a-z]+$/`, `/\pL/`, `/\pL{2}/`, `/(?P<n>a)b/`, `/(?P<N>A)B/`, `/a|B/`,
 	`/\bID\b/`, `/\d+$/`, `/.*Name/`, `/\x41/`, `/\QA.B\E/`, `/[/`, `/(/`, `/`, `//`, `/a`, `a/`, `/A.B/`, `/^User\.(Name|ID)$/`, `/\W/`, `/\D/`,
 	`/[[:upper:]]/`, `/[^a-z.]/`, `/(?:name|id)$/`, `/(?:NAME|ID)$/`, `/(?:ab)/`, `/(?:A)b/`, `/(?s)user\.name/`, `/(?P<x>k)elvin/`, `/(?:created|updated)at$/`,
-	`/(?U)a+/`, `/(?m)^id$/`, `/(?i)name/`, `/(?-i)Name/`, `/µ/`, `/Μ/`, `/ſ/`, `/\p{Greek}/`, `/\PL/`, `/\BD/`, `/\Ax/`, `/a\z/`, `/^$/`, `/./`}
+	`/(?U)a+/`, `/(?m)^id$/`, `/(?i)name/`, `/(?-i)Name/`, `/µ/`, `/Μ/`, `/ſ/`, `/\p{Greek}/`, `/\PL/`, `/\BD/`, `/\Ax/`, `/a\z/`, `/^$/`, `/./`,
+	// an alternation between two anchors binds the anchors to its ends: (^Name)|(ID$), not ^(Name|ID)$
+	`/^Name|ID$/`, `/^a|b$/`, `/^User|name$/`, `/^A|B|s$/`}
 
 func genScript(r *rand.Rand) Script {
 	s := Script{Kind: "pm", Case: r.Intn(2) == 0}
